@@ -225,6 +225,10 @@ class SymArray:
                 C = ctx()
                 for i in _np.ndindex(*self.a.shape):
                     m = key.a[i]
+                    if m.t is None:  # concrete mask element: plain store / no store (same encoding as an all-concrete mask)
+                        if m.c:
+                            self.a[i] = v
+                        continue
                     if m.t is not None and C.prune and C.shadow is None and C.simplify_stores:
                         # simplify against the path condition: a mask element already implied
                         # true / false on this path needs no if-then-else
